@@ -1,10 +1,11 @@
 #!/bin/bash
 # usage: tools/mutcheck.sh <property> <patch-or-script> [tier]
 # Runs a check against a scratch copy of /repo's gmlc tree with a change applied.
+# BASE_COMMIT=<rev> takes the library sources from that commit of /repo instead of the working tree.
 set -e
 PID=$1; CHANGE=$2; TIER=${3:-quick}
 W=$(mktemp -d /tmp/mutXXXXXX)
-cp -r /repo/gmlc $W/gmlc
+if [ -n "$BASE_COMMIT" ]; then git -C /repo archive $BASE_COMMIT gmlc | tar -x -C $W; else cp -r /repo/gmlc $W/gmlc; fi
 if [[ "$CHANGE" == *.diff || "$CHANGE" == *.patch ]]; then (cd $W && patch -p1 -s < "$CHANGE"); else (cd $W && bash "$CHANGE"); fi
 set +e
 VERIF_REPO=$W VERIF_OUT=$W/out /verif/verif check $PID --tier $TIER
